@@ -95,15 +95,17 @@ ConvertStep(o, kind) ==
 Storable(cls) == CASE cls = "base" -> {"plain", "mut", "branch", "model_from", "model"} [] cls = "point" -> {"plain", "mut", "model_from", "model"} [] OTHER -> {"plain", "mut", "model_from"}
 NewVal(key, old) == CASE key = "plain" -> IF old = "v0" THEN "v1" ELSE "v0" [] key = "mut" -> IF old = "c0" THEN "c1" ELSE "c0"
                       [] key = "branch" -> IF old = "des" THEN "junk" ELSE "des" [] key = "model_from" -> "Toth" [] OTHER -> "UFF"
-EditSteps ==
-   {ConvertStep(o, kind) : o \in Present(St), kind \in UNION {Kinds(x) : x \in Present(St)}}
-   \cup {[NoStep EXCEPT !.k = "SetMeta", !.o = o, !.key = key, !.val = NewVal(key, IF key \in DOMAIN obj[o].meta THEN obj[o].meta[key].v ELSE "none"),
-                        !.vr = IF key = "mut" THEN Least(UsedVrefs(St)) ELSE 0] : o \in Present(St), key \in {"plain", "mut", "branch", "model_from", "model"}}
-   \cup {[NoStep EXCEPT !.k = "DelMeta", !.o = o, !.key = key] : o \in Present(St), key \in {"plain", "mut"}}
-   \cup {[NoStep EXCEPT !.k = "MutMeta", !.o = o, !.key = "mut", !.val = "c2"] : o \in Present(St)}
-   \cup {[NoStep EXCEPT !.k = "EditMat", !.o = o, !.key = "density", !.val = "9.9"] : o \in Present(St)}
-   \cup {[NoStep EXCEPT !.k = "Drop", !.o = o] : o \in Present(St)}
-   \cup {[NoStep EXCEPT !.k = "Register", !.name = "mat", !.props = [k \in {"density", "molar_mass"} |-> "reg"], !.cell = Least(LiveCells(St))] : o \in {1}}
+EditStepsOf(k) ==
+   CASE k = "Convert" -> {ConvertStep(o, kind) : o \in Present(St), kind \in UNION {Kinds(x) : x \in Present(St)}}
+     [] k = "SetMeta" -> {[NoStep EXCEPT !.k = "SetMeta", !.o = o, !.key = key, !.val = NewVal(key, IF key \in DOMAIN obj[o].meta THEN obj[o].meta[key].v ELSE "none"),
+                                         !.vr = IF key = "mut" THEN Least(UsedVrefs(St)) ELSE 0] : o \in Present(St), key \in {"plain", "mut", "branch", "model_from", "model"}}
+     [] k = "DelMeta" -> {[NoStep EXCEPT !.k = "DelMeta", !.o = o, !.key = key] : o \in Present(St), key \in {"plain", "mut"}}
+     [] k = "MutMeta" -> {[NoStep EXCEPT !.k = "MutMeta", !.o = o, !.key = "mut", !.val = "c2"] : o \in Present(St)}
+     [] k = "EditMat" -> {[NoStep EXCEPT !.k = "EditMat", !.o = o, !.key = "density", !.val = "9.9"] : o \in Present(St)}
+     [] k = "Drop" -> {[NoStep EXCEPT !.k = "Drop", !.o = o] : o \in Present(St)}
+     [] k = "Register" -> {[NoStep EXCEPT !.k = "Register", !.name = "mat", !.props = [kk \in {"density", "molar_mass"} |-> "reg"], !.cell = Least(LiveCells(St))]}
+     [] OTHER -> {}
+EditSteps == UNION {EditStepsOf(k) : k \in {"Convert", "SetMeta", "DelMeta", "MutMeta", "EditMat", "Drop", "Register"}}
 Enabled(s) ==
    CASE s.k = "Convert" -> s.kind \in Kinds(s.o)
      [] s.k = "SetMeta" -> s.key \in Storable(obj[s.o].cls)
@@ -121,7 +123,12 @@ Take(step, r) ==
    /\ lineage' = IF Derives(step) /\ r.out = "ok" THEN [lineage EXCEPT ![step.n] = step.t] ELSE lineage
 
 Spec1(step) == IF Derives(step) THEN SpecPost(St, step) ELSE [out |-> "ok", S |-> EditPost(St, step)]
-Of(kinds) == {s \in Steps : s.k \in kinds}
+CanDerive == FreeSlots # {} /\ FreeCells # {}
+Of(kinds) == UNION {CASE k = "PFI" -> IF CanDerive THEN StepsPFI ELSE {}
+                      [] k = "PFM" -> IF CanDerive THEN StepsPFM ELSE {}
+                      [] k = "MFP" -> IF CanDerive THEN StepsMFP ELSE {}
+                      [] k = "RT" -> IF CanDerive THEN StepsRT ELSE {}
+                      [] OTHER -> {s \in EditStepsOf(k) : Enabled(s)} : k \in kinds}
 \* one named action per public operation (transcribed system)
 IDerivePFI == \E step \in Of({"PFI"}) : Take(step, ImplPost(St, step))        \* PointIsotherm.from_isotherm
 IDerivePFM == \E step \in Of({"PFM"}) : Take(step, ImplPost(St, step))        \* PointIsotherm.from_modelisotherm
